@@ -274,6 +274,10 @@ class TradingEnv(gymnasium.Env):
         # Instance generator of events to be sent at every interaction.
         self._transmitter._reset(fold, episode_length, self._sampling_span)
         self._events_latent, self._events_nonlatent = self._transmitter._next()
+        # The first batch can span several past timesteps: replay it in
+        # chronological order instead of all latent events first.
+        self._events_nonlatent = sorted(self._events_latent + self._events_nonlatent)
+        self._events_latent = list()
         self._process_latent_events()
         self._process_nonlatent_events()
 
